@@ -10,5 +10,5 @@ for m in re.finditer(r'\((?:declare|define)-fun (\|[^|]*\||[^ ]+) \(\) (Int|Bool
 extra=sys.argv[3:] 
 q=src+"\n(get-value (%s))\n"%(" ".join(names+extra))
 open('/tmp/_m.smt2','w').write(q)
-out=subprocess.run([solver,'/tmp/_m.smt2'],capture_output=True,text=True).stdout
+out=subprocess.run(["timeout","30",solver,"/tmp/_m.smt2"],capture_output=True,text=True).stdout
 print(out)
